@@ -42,12 +42,17 @@ def run(cmd, **kw):
     return subprocess.run(cmd, stdout=subprocess.PIPE, stderr=subprocess.STDOUT, text=True, **kw)
 
 
-def codegen(build_dir, log_path):
-    """Compile every harness of /verif/harness to a goto binary. Returns {pretty_name: meta}."""
+def codegen(build_dir, log_path, harnesses=None):
+    """Compile the selected harnesses of /verif/harness (all if None) to goto binaries.
+    Returns ({harness_name: kani metadata}, seconds)."""
     os.makedirs(build_dir, exist_ok=True)
     t0 = time.time()
     cmd = ["cargo", "kani", "-Z", "stubbing", "--only-codegen", "--no-assertion-reach-checks",
            "--target-dir", build_dir]
+    if harnesses:
+        cmd.append("--exact")
+        for h in harnesses:
+            cmd += ["--harness", R_path(h)]
     p = run(cmd, cwd=HARNESS_DIR, env=env_for_build())
     with open(log_path, "w") as f:
         f.write(p.stdout)
@@ -64,6 +69,11 @@ def codegen(build_dir, log_path):
                     if os.path.exists(h["goto_file"]):
                         metas[name] = h
     return metas, time.time() - t0
+
+
+def R_path(h):
+    import registry
+    return registry.full_path(h)
 
 
 def symbols_matching(goto_file, pattern):
@@ -163,7 +173,7 @@ def _limit_mem(gb):
 
 
 def run_cbmc(goto_file, unwind, unwindset, timeout_s, mem_gb, log_path, extra=None, trace=False):
-    cmd = ["cbmc"] + CBMC_BASE_FLAGS + [goto_file, "--json-ui", "--unwinding-assertions"]
+    cmd = ["cbmc"] + CBMC_BASE_FLAGS + [goto_file, "--json-ui", "--unwinding-assertions", "--verbosity", "8"]
     if unwind is not None:
         cmd += ["--unwind", str(unwind)]
     if unwindset:
